@@ -232,7 +232,6 @@ func uncoveredReads(fn *ssa.Function) (covered int, out []uncoveredRead) {
 	return
 }
 
-
 // neqBoost: the not-equal idiom `i != len(s)-1` (with i < len(s) already known) also proves i+1 < len(s). For a read
 // in blk, given the best k proved so far for (x, s), look for dominating facts X + a != len(s) + b with a-b == k+1.
 func neqBoost(fn *ssa.Function, blk *ssa.BasicBlock, x, s ssa.Value, k int64) int64 {
